@@ -1125,4 +1125,29 @@ Definition cast_down (w N : Z) (fuel : nat) (M : Z) (self : list Z) : res (list 
   | Returned t3' => Done t3'
   end.
 
+(* src/buint/convert.rs: fn from *)
+Definition from_uint (w N : Z) (fuel : nat) (pb : Z) (int : Z) : res (list Z) :=
+  let UINT_BITS := pb in
+  let out := (ZERO (Z.to_nat N)) in
+  let i := 0 in
+  t2' <- while_loop (R := list Z) fuel
+    (fun '(out, i) => ((ix_shl i (digit_BIT_SHIFT w)) <? UINT_BITS))
+    (fun '(out, i) =>
+      t1' <- pshr pb int (ix_shl i (digit_BIT_SHIFT w)) ;;
+      let d := (ud w t1') in
+      if (negb (d =? 0)) then (
+        out <- arr_set out i d ;;
+        let i := (i + 1) in
+        Done (Continue (out, i))
+      ) else (
+        let i := (i + 1) in
+        Done (Continue (out, i))
+      ))
+    (out, i) ;;
+  match t2' with
+  | Exited (out, i) =>
+      Done out
+  | Returned t3' => Done t3'
+  end.
+
 End Loops.
